@@ -27,6 +27,9 @@ def _one(L):
     key = 'Vss:pad:L%d' % L
     oks, err = FC.ok_worlds(ws)
     if err:
+        df = FC.definite_fault(ws)
+        if df:
+            return [('violation', key + ':fault', '%s (length %d): %s' % (where, L, df))], 0
         return [('undecided', key, '%s (length %d): %s' % (where, L, err))], 0
     out = []
     for w in oks:
